@@ -7,6 +7,7 @@ def extra(work, v, thorough):
     return rbcheck.run(work, v, "C01", thorough, with_model=False)
 
 PLAN = {
+    "api": True,
     "mc": [("StoreMC_acct.cfg", False), ("StoreMC_exp_small.cfg", True)],
     "sims": [("StoreSim_acct.cfg", 200, 1500, 61)],
     "drivers": [("TestVerif_StoreFree", 10, 60, "store_free.ndjson", None)],
